@@ -536,10 +536,10 @@ def build_jobs(tier):
         for n in (0, 1, 2, 3, 4):
             jobs += jobs_A(n)
         jobs += jobs_A(5, shifted=False,
-                       sset_base=((None, 0), MFS, BSS, IGNS))
+                       sset_base=((None, 0), MFS, (1, 2), IGNS))
         bounds['A'] = ('n<=4 roots: all 6 states, all cuts, all 144 settings;'
                        ' n=5: all 6^5 state sequences, older_than in '
-                       '{unset,0} (base cut only)')
+                       '{unset,0} (base cut only), batch_size in {1,2}')
         for n in (2, 3):
             jobs += jobs_T(n)
         bounds['T'] = 'n<=3 roots with a tied age class, all 144 settings'
